@@ -100,6 +100,35 @@ impl ShortMessage for Liar {
     }
 }
 
+/// An impure message object: every byte getter answers `a` on its first call and `b` afterwards.
+struct Fickle {
+    a: [u8; 3],
+    b: [u8; 3],
+    calls: [std::cell::Cell<u8>; 3],
+}
+impl Fickle {
+    fn get(&self, i: usize) -> u8 {
+        let n = self.calls[i].get();
+        self.calls[i].set(n.saturating_add(1));
+        if n == 0 {
+            self.a[i]
+        } else {
+            self.b[i]
+        }
+    }
+}
+impl ShortMessage for Fickle {
+    fn status_byte(&self) -> u8 {
+        self.get(0)
+    }
+    fn data_byte_1(&self) -> U7 {
+        U7::new(self.get(1))
+    }
+    fn data_byte_2(&self) -> U7 {
+        U7::new(self.get(2))
+    }
+}
+
 macro_rules! with_repr {
     ($raw:expr, $b:expr, $repr:expr, |$m:ident| $body:expr) => {
         match $repr {
@@ -807,7 +836,7 @@ impl<'a> Exec<'a> {
     /// restore nothing is judged (no model can say what the scanners should make of it, and a
     /// panic or allocation on such input is not the crate's fault either); the reset itself is
     /// judged again: whatever was fed, `reset()` leaves a scanner equal to a new one (C17).
-    fn do_liar(&mut self, raw: [u8; 3], st: [u8; 3]) -> Result<(), Panicked> {
+    fn do_liar(&mut self, raw: [u8; 3], st: [u8; 3], fickle: bool) -> Result<(), Panicked> {
         let ok = |b: &[u8; 3]| b[0] >= 0x80 && b[1] < 128 && b[2] < 128;
         if !ok(&raw) || !ok(&st) {
             return Ok(());
@@ -819,9 +848,17 @@ impl<'a> Exec<'a> {
         clk::set_now(self.now);
         let m = &mut self.main;
         // whatever happens in there, including a panic, is not judged
-        let _ = api_expect_panic(L::cc14_feed, || m.cc.feed(&msg));
-        let _ = api_expect_panic(L::pn_feed, || m.pn.feed(&msg));
-        let _ = api_expect_panic(L::polling_feed, || m.po.feed(&msg));
+        if fickle {
+            let mk = || Fickle { a: raw, b: st, calls: Default::default() };
+            let (m1, m2, m3) = (mk(), mk(), mk());
+            let _ = api_expect_panic(L::cc14_feed, || m.cc.feed(&m1));
+            let _ = api_expect_panic(L::pn_feed, || m.pn.feed(&m2));
+            let _ = api_expect_panic(L::polling_feed, || m.po.feed(&m3));
+        } else {
+            let _ = api_expect_panic(L::cc14_feed, || m.cc.feed(&msg));
+            let _ = api_expect_panic(L::pn_feed, || m.pn.feed(&msg));
+            let _ = api_expect_panic(L::polling_feed, || m.po.feed(&msg));
+        }
         self.sig.b(0x72);
         Ok(())
     }
@@ -946,7 +983,7 @@ impl<'a> Exec<'a> {
                 self.unwinding = *n as u32;
                 Ok(())
             }
-            Ev::Liar { raw, st } => self.do_liar(*raw, *st),
+            Ev::Liar { raw, st, fickle } => self.do_liar(*raw, *st, *fickle),
             Ev::Hop { n } => {
                 self.p.thread_hop_windows += 1;
                 self.hop = *n as u32;
